@@ -25,9 +25,9 @@ from vlib.common import *
 
 PROP = "C02"
 NWORK = 16
-CPU_LIMIT = 25.0          # CPU seconds one input may use (typical: < 1 ms; the largest bundled file: < 0.2 s)
+CPU_LIMIT = 10.0          # CPU seconds one input may use (typical: < 1 ms; the largest bundled file: < 0.2 s)
 WALL_LIMIT = 1500.0       # wall-clock backstop without any progress of a worker (machine overload tolerant)
-OPS_WALL_LIMIT = 400      # wall-clock seconds for the cursor-program run (typical: 1-2 s)
+OPS_CPU_LIMIT = 60.0      # CPU seconds for the whole cursor-program run (typical: 1-2 s; x10 in the thorough tier)
 MAX_HANGS = 6            # watchdog kills / process deaths after which a stream is abandoned
 MEM_KB = 6000000          # address space of a worker (ulimit -v)
 TICK = os.sysconf("SC_CLK_TCK") if hasattr(os, "sysconf") else 100
@@ -580,19 +580,35 @@ def ops_stage(res, hbin, mbin, mode_args, tag, stats, ops_samples):
     for f in (impl,) + ((cases,) if mode_args[0] == "ops" else ()):
         if os.path.exists(f):
             os.remove(f)
-    # the ops run is a single watched process: wall-clock limit, the case in flight is the first one without result
-    limit = OPS_WALL_LIMIT * (4 if mode_args[0] == "ops" and mode_args[2] > 100000 else 1)
+    # the ops run is a single watched process: CPU-time limit (wall-clock backstop), the case in flight is the first
+    # one without result
+    limit = OPS_CPU_LIMIT * (10 if mode_args[0] == "ops" and mode_args[2] > 100000 else 1)
     if mode_args[0] == "ops":
-        rc, out = run([hbin, "ops", str(mode_args[1]), str(mode_args[2]), cases, impl], timeout=limit)
+        cmd = [hbin, "ops", str(mode_args[1]), str(mode_args[2]), cases, impl]
     else:
         cases = mode_args[1]
-        rc, out = run([hbin, "opsfile", cases, impl], timeout=limit)
+        cmd = [hbin, "opsfile", cases, impl]
+    p = subprocess.Popen(cmd, stdout=subprocess.PIPE, stderr=subprocess.STDOUT, env=env_base())
+    t0 = time.time()
+    rc = None
+    while True:
+        rc = p.poll()
+        if rc is not None:
+            break
+        cpu = cpu_seconds(p.pid)
+        if (cpu is not None and cpu > limit) or time.time() - t0 > WALL_LIMIT:
+            p.kill()
+            p.wait()
+            rc = 124
+            break
+        time.sleep(0.05)
+    out = (p.stdout.read() or b"").decode("utf-8", "replace")
     if rc == 124:
         cl = [l for l in open(cases).read().split("\n") if l] if os.path.exists(cases) else []
         ni = len([l for l in open(impl).read().split("\n") if l]) if os.path.exists(impl) else 0
         inflight = cl[ni] if ni < len(cl) else None
-        res.violation("a cursor program on the real TokenStream did not terminate within %d s (skip_until / or_recover_until "
-                      "loop without progress?)" % limit,
+        res.violation("a cursor program on the real TokenStream did not terminate (the run used more than %d s of CPU time; "
+                      "skip_until / or_recover_until loop without progress?)" % limit,
                       {"kind": "ops", "case": inflight, "results_before": ni, "replay_cmd": "./check C02 --replay <this file>"},
                       no_failing_input=inflight is None)
         return
